@@ -252,6 +252,15 @@ func c05Main(r *engine.Run) {
 			}
 		}
 	})
+	for _, ct := range allCT {
+		for i, g := range wideGeoms(ct) {
+			c := shapeCase{Idx: i, Shape: fmt.Sprintf("wide #%d (%s)", i, g.Type()), CT: int(ct), Sup: "wide"}
+			if p := engine.SafeCall(func() { c05One(r, g, c, 0) }); p != nil {
+				r.Violation("C05/panic", "shape", c, fmt.Sprint(p))
+			}
+		}
+	}
+	r.Bound("wide collections (33..500 direct members, 40-member Multi*, collection of collections) × 4 ctypes")
 	if done {
 		r.Bound(fmt.Sprintf("S(%d,%d) = %d shapes × 4 ctypes × %d float rotations; re-spellings with ≤ %d separator deviations", d, w, len(shapes), len(offs), devs))
 	}
